@@ -1,4 +1,5 @@
 import BobModel.Proofs.C14Enc
+import BobModel.Proofs.C14Order
 import BobModel.Proofs.C14Closure
 import BobModel.Proofs.C14Validate
 /-
@@ -40,6 +41,12 @@ theorem digestData_injective_opt (a b : Data) (x : Bytes) (ha : digest? a = some
 /-- conversely the digest depends on nothing but the canonical content -/
 theorem digestData_content_only (a b : Data) (h : canon a = canon b) : digest a = digest b := by
   rw [digest_eq_enc_canon, digest_eq_enc_canon, h]
+
+/-- what `canon` forgets about a dict is exactly the insertion order: dicts with the same entries (distinct
+keys, as in every Python dict) have the same digest -/
+theorem digest_dict_order_independent (kvs kvs' : List (Str × Data)) (hn : (kvs.map Prod.fst).Nodup)
+    (hn' : (kvs'.map Prod.fst).Nodup) (h : ∀ p, p ∈ kvs ↔ p ∈ kvs') : digest (.map kvs) = digest (.map kvs') :=
+  digestData_content_only _ _ (canon_map_order_independent kvs kvs' hn hn' h)
 
 /-- the conflation that the source has, stated: `True` and `1` get the same digest exactly when the source
 tests `int` first -/
